@@ -250,7 +250,13 @@ class MemoryFileSystem(FileSystem):
     self._prefix = prefix
 
   def _internal_path(self, path: Union[str, os.PathLike[str]]) -> str:
-    return '/' + resolve_path(path).lstrip(self._prefix)
+    path = resolve_path(path)
+    # NOTE: `str.lstrip` strips a character set, not a prefix.
+    if path.startswith(self._prefix):
+      path = path[len(self._prefix):]
+    elif path + '/' == self._prefix:
+      path = ''
+    return '/' + path
 
   def _locate(self, path: Union[str, os.PathLike[str]]) -> Any:
     current = self._root
